@@ -40,7 +40,8 @@ class C10(PropBase):
             "split point of generated files <= 2 KiB and of the corpus witnesses, 1-byte trickle; random: chunk sizes around "
             "5/10/20/40/80/160 KiB on files with lines up to 80 KiB-1, fixed chunk sizes, tiny chunks; non-trivial = the schedule "
             "splits the input at least once and the input has >= 3 lines; distinct = distinct case lines")
-    trusted_base = G.TRUSTED + ["parse_async is not modelled: its loop body is compared textually with parse's on every run (extra check)"]
+    trusted_base = G.TRUSTED + ["parse_async: modelled (drive_async) and proved equal to parse; the model is tied to its source by the textual "
+                                "twin check against parse on every run (no harness for reqwest::Response; C16 exercises it); HTTP chunks assumed non-empty"]
     manifest = {
         "text": "Theorems (Coq; all inputs, all reader schedules, any line recogniser): the bytes handed to the callback are exactly the "
                 "first total_consumed bytes of the input, and all of it when the result is Ok (c10_callback_prefix); if every line has "
@@ -48,9 +49,12 @@ class C10(PropBase):
                 "rule), hence is the same for any two schedules (c10_chunk_independent, c10_any_two_schedules). Tied to the code by "
                 "running the extracted driver + byte-level line recogniser and SymbolFile::parse(ChunkReader, recording callback) on the "
                 "same cases (result, error line, callback bytes/calls, read calls, table summary), debug and release; the oracle "
-                "compares chunked with whole-slice parsing (full table equality) and checks the callback bytes against the input.",
+                "compares chunked with whole-slice parsing (full table equality) and checks the callback bytes against the input. "
+                "Round 2: full symbol table in the model and in the comparison (c10_table_chunk_independent); parse_async modelled and "
+                "proved equal to parse under the schedule of its reads (c10_async_is_sync); parser contract for the symbol cache "
+                "(c10_cached_form_parse).",
         "note": "Trusted: Coq kernel; hand-written models (correspondence-checked); buffer contents abstracted to the FIFO contract of "
-                "circular 0.3.0, checked per case; parse_async covered only by a textual twin check against parse. Two defects found and "
+                "circular 0.3.0, checked per case; parse_async modelled, tied to its source by a textual twin check against parse. Two defects found and "
                 "fixed in /repo (F-C10a, F-C10b). No axioms.",
     }
     assumptions = ["chunk independence is proved for the line-compositional model; that the real parse_more is line-compositional is what the correspondence run checks",
